@@ -103,6 +103,9 @@ theorem number_order (a b : F64) : evalInfix .lte (.num a) (.num b) = .ok (.bool
 theorem null_attribute_exists : callFn fn_attribute_exists [.null false] = .ok (.bool true) := by rfl
 theorem missing_attribute_not_exists : callFn fn_attribute_exists [Obj.undefined] = .ok (.bool false) := by rfl
 theorem missing_attribute_not_exists' : callFn fn_attribute_not_exists [Obj.undefined] = .ok (.bool true) := by rfl
+/-- begins_with and contains on an attribute the item does not have: false, whatever the operand -/
+theorem missing_begins_with (x : Obj) : fnBeginsWith Obj.undefined x = .ok (.bool false) := rfl
+theorem missing_contains (x : Obj) : fnContains Obj.undefined x = .ok (.bool false) := rfl
 theorem null_attribute_type : fnAttributeType (.null false) (.str [78, 85, 76, 76]) = .ok (.bool true) := by rfl
 theorem missing_attribute_type : fnAttributeType Obj.undefined (.str [78, 85, 76, 76]) = .ok (.bool false) := by rfl
 
